@@ -657,6 +657,9 @@ func (b *BFT) NewRound(newHeight bool) {
 	}
 	b.round.Store(b.Round)
 	b.RefreshRootChainInfo()
+	// a block result cached by an earlier round describes a state machine that later rounds reset (ProduceProposal,
+	// ValidateProposal): a commit must not take it for the applied state
+	b.BlockResult = nil
 	// reset ProposerKey, Proposal, and Sortition data
 	b.ProposerKey = nil
 	b.Block, b.BlockHash, b.Results = nil, nil, nil
